@@ -124,30 +124,25 @@ theorem multiply_spec (l r : Transform) :
       simp only [Bool.and_eq_true, and_assoc]; exact h
     simp only [h', Bool.false_eq_true, if_false]
 
-/-- (M7, partial) `pixman_transform_bounds` returning TRUE: every corner of the input box was
-    transformed successfully (`pixman_transform_point` TRUE) and lies inside the returned box —
-    EXCEPT that nothing is proved about the right/bottom edge for a transformed coordinate above
-    32767.0: there `pixman_fixed_ceil` wraps and the model (like the library) returns TRUE with a box
-    that does not contain the corner (`bounds_defect_B` below).  Gap to the full property: the
-    library has to return FALSE in that case. -/
-theorem bounds_contains_corners_partial (t : Transform) (b b' : Box16) (h : bounds t b = some (true, b')) :
-    ∀ c ∈ corners b, ∃ p, transformPoint t c = some (true, p) ∧ ContainsExceptCeilOverflow b' p :=
+/-- (M7) `pixman_transform_bounds` returning TRUE: every corner of the input box was transformed
+    successfully (`pixman_transform_point` TRUE) and lies inside the returned box (edges included). -/
+theorem bounds_contains_corners (t : Transform) (b b' : Box16) (h : bounds t b = some (true, b')) :
+    ∀ c ∈ corners b, ∃ p, transformPoint t c = some (true, p) ∧ Contains b' p :=
   (boundsLoop_spec t (corners b) true b b' h).2
 
-/-- defect B is in the model exactly as in the library: translate by 0.5, box x2 = 32767:
-    TRUE with the box (0,0,1,10), although the corner x = 32767.5 is outside -/
-example : bounds ⟨65536, 0, 32768, 0, 65536, 0, 0, 0, 65536⟩ ⟨0, 0, 32767, 10⟩ = some (true, ⟨0, 0, 1, 10⟩) := by
+/-- regression of defect B (translate by 0.5, box x2 = 32767): the corner x = 32767.5 has no
+    representable ceiling: FALSE (the box holds what the first corner wrote) -/
+example : bounds ⟨65536, 0, 32768, 0, 65536, 0, 0, 0, 65536⟩ ⟨0, 0, 32767, 10⟩ = some (false, ⟨0, 0, 1, 0⟩) := by
+  decide
+example : bounds ⟨65536, 0, 32768, 0, 65536, 0, 0, 0, 65536⟩ ⟨0, 0, 3, 4⟩ = some (true, ⟨0, 0, 4, 4⟩) := by
   decide
 
-/-- (M5, exact characterisation) `pixman_transform_point_31_16` aborts — for `int32_t` matrices and
-    inputs admitted by its own asserts — exactly when the divisor it hands to
-    `rounded_sdiv_128_by_49` is `-2^48` (assertion `div < 2^48` on the magnitude). -/
-theorem transformPoint3116_abort_iff (t : Transform) (v : Vec) (ht : t.isI32)
+/-- (M5) `pixman_transform_point_31_16` never aborts for `int32_t` matrices and inputs admitted by
+    its own asserts: the divisor handed to `rounded_sdiv_128_by_49` has magnitude at most `2^48`
+    (`projDivisor_range`; `-2^48` IS reached), which the assertion `div <= 2^48` admits. -/
+theorem transformPoint3116_never_aborts (t : Transform) (v : Vec) (ht : t.isI32)
     (hv : is3116 v.x ∧ is3116 v.y ∧ is3116 v.z) :
-    transformPoint3116 t v = none ↔
-      dot t.m20 t.m21 t.m22 v.x v.y v.z ≠ 4294967296 ∧ dot t.m20 t.m21 t.m22 v.x v.y v.z ≠ 0 ∧
-      (projDivisor (dot t.m20 t.m21 t.m22 v.x v.y v.z / 65536) (dot t.m20 t.m21 t.m22 v.x v.y v.z % 65536)).1
-        = -281474976710656 := by
+    (transformPoint3116 t v).isSome = true := by
   have hA : vecAssert v = true := by simp [vecAssert, hv.1, hv.2.1, hv.2.2]
   unfold Transform.isI32 at ht
   obtain ⟨d1, d2⟩ := div_parts t.m20 t.m21 t.m22 v
@@ -157,74 +152,66 @@ theorem transformPoint3116_abort_iff (t : Transform) (v : Vec) (ht : t.isI32)
   generalize dot t.m20 t.m21 t.m22 v.x v.y v.z = W at *
   have pr := projDivisor_range (W / 65536) (W % 65536) rng (by omega)
   have hdI : isI64 (projDivisor (W / 65536) (W % 65536)).1 := by unfold isI64; omega
-  by_cases c1 : W / 65536 = 65536 ∧ W % 65536 = 0
-  · simp only [c1, and_self, if_true]
-    constructor
-    · intro h; cases h
-    · intro h; omega
-  · simp only [c1, if_false]
-    by_cases c2 : W / 65536 = 0 ∧ W % 65536 = 0
-    · simp only [c2, and_self, if_true]
-      constructor
-      · intro h; cases h
-      · intro h; omega
-    · simp only [c2, if_false]
-      have n1 := projCoord_none_iff (rowHi t.m00 t.m01 t.m02 v) (rowLo t.m00 t.m01 t.m02 v) _ (projDivisor (W / 65536) (W % 65536)).2 hdI
-      have n2 := projCoord_none_iff (rowHi t.m10 t.m11 t.m12 v) (rowLo t.m10 t.m11 t.m12 v) _ (projDivisor (W / 65536) (W % 65536)).2 hdI
-      have ab : iabs (projDivisor (W / 65536) (W % 65536)).1 ≥ 281474976710656 ↔
-          (projDivisor (W / 65536) (W % 65536)).1 = -281474976710656 := by unfold iabs; split <;> omega
-      rw [ab] at n1 n2
-      constructor
-      · intro h
-        refine ⟨by omega, by omega, ?_⟩
-        split at h
-        · rename_i h1; exact n1.1 h1
-        · split at h
-          · rename_i h2; exact n2.1 h2
-          · cases h
-      · intro h
-        rw [n1.2 h.2.2]
+  have ab : ¬ iabs (projDivisor (W / 65536) (W % 65536)).1 > 281474976710656 := by unfold iabs; split <;> omega
+  have n1 := projCoord_none_iff (rowHi t.m00 t.m01 t.m02 v) (rowLo t.m00 t.m01 t.m02 v) _ (projDivisor (W / 65536) (W % 65536)).2 hdI
+  have n2 := projCoord_none_iff (rowHi t.m10 t.m11 t.m12 v) (rowLo t.m10 t.m11 t.m12 v) _ (projDivisor (W / 65536) (W % 65536)).2 hdI
+  split
+  · rfl
+  · split
+    · rfl
+    · split
+      · rename_i h1; exact absurd (n1.1 h1) ab
+      · split
+        · rename_i h2; exact absurd (n2.1 h2) ab
+        · rfl
 
-/-- (M5, partial) the public `pixman_transform_point` never aborts when the exact homogeneous
-    coordinate `w = m2·v` is above `-65536.0` (`-2^48` in 32.32 units) — in particular for every
-    affine matrix and every `w ≥ 0`.  Gap to the full property "never aborts": for `w ≤ -65536.0`
-    whose reduced divisor is exactly `-2^48` the assertion in `rounded_udiv_128_by_48` fails
-    (`transformPoint3116_abort_iff`, defect A below); the division itself would be correct there
-    (`udivCore_spec` covers `div = 2^48`). -/
-theorem transformPoint_never_aborts_partial (t : Transform) (v : Vec) (ht : t.isI32) (hv : v.isI32)
-    (hw : -281474976710656 < dot t.m20 t.m21 t.m22 v.x v.y v.z) :
+/-- (M5) the public `pixman_transform_point` never aborts, for every `int32_t` matrix and vector -/
+theorem transformPoint_never_aborts (t : Transform) (v : Vec) (ht : t.isI32) (hv : v.isI32) :
     (transformPoint t v).isSome = true := by
   have h31 : is3116 v.x ∧ is3116 v.y ∧ is3116 v.z := by
     unfold Vec.isI32 isI32 at hv; unfold is3116; omega
   cases h : transformPoint t v with
   | some _ => rfl
   | none =>
-    exfalso
-    have h' := (transformPoint3116_abort_iff t v ht h31).1 ((transformPoint_none_iff t v).1 h)
-    have hI := (rows_in_int64 t.m20 t.m21 t.m22 v ht.2.2.2.2.2.2.1 ht.2.2.2.2.2.2.2.1 ht.2.2.2.2.2.2.2.2 h31).2.2.2.1
-    rw [(div_parts t.m20 t.m21 t.m22 v).1] at hI
-    generalize dot t.m20 t.m21 t.m22 v.x v.y v.z = W at *
-    by_cases hs : W < 281474976710656
-    · have := projDivisor_small (W / 65536) (W % 65536) (by omega) (by omega)
-      rw [this] at h'; simp only at h'; omega
-    · obtain ⟨s, _, _, e, _, _, _⟩ := projDivisor_large (W / 65536) (W % 65536) hI (by omega) (by omega)
-      rw [e] at h'; simp only at h'
-      have hD : W / 65536 * 65536 + W % 65536 = W := by omega
-      rw [hD] at h'
-      have hp : (0 : Int) < 2 ^ s := Int.pow_pos (by omega)
-      have := Int.ediv_nonneg (by omega : 0 ≤ W) (by omega : (0 : Int) ≤ 2 ^ s)
-      omega
+    have := transformPoint3116_never_aborts t v ht h31
+    rw [(transformPoint_none_iff t v).1 h] at this
+    cases this
 
-/-- defect A is in the model exactly as in the library: `m[2][0] = INT32_MIN`, `v = (2.0, 0, 1.0)`:
-    divisor `-2^48`, the assertion fails -/
-example : transformPoint ⟨65536, 0, 0, 0, 65536, 0, -2147483648, 0, 0⟩ ⟨131072, 0, 65536⟩ = none := by decide
+/-- (M5) `pixman_transform_bounds` never aborts -/
+theorem bounds_never_aborts (t : Transform) (b : Box16) (ht : t.isI32) : (bounds t b).isSome = true := by
+  have hc : ∀ c ∈ corners b, c.isI32 := by
+    intro c hc
+    unfold corners at hc
+    simp only [List.mem_cons, List.mem_nil_iff, or_false] at hc
+    rcases hc with h | h | h | h <;> subst h <;>
+      (unfold Vec.isI32 isI32 intToFixed fixed1 wrapS32; simp only; omega)
+  unfold bounds
+  suffices h : ∀ (cs : List Vec), (∀ c ∈ cs, c.isI32) → ∀ (first : Bool) (b : Box16),
+      (boundsLoop t first b cs).isSome = true from h _ hc _ _
+  intro cs
+  induction cs with
+  | nil => intro _ _ _; rfl
+  | cons c rest ih =>
+    intro hc first b
+    unfold boundsLoop
+    have hs := transformPoint_never_aborts t c ht (hc c (List.mem_cons_self))
+    split
+    · rename_i h; rw [h] at hs; cases hs
+    · rfl
+    · split
+      · rfl
+      · exact ih (fun c' h' => hc c' (List.mem_cons_of_mem _ h')) _ _
 
-/-- non-vacuity of `transformPoint_never_aborts_partial` / `transformPoint3116_abort_iff`: a projective case that does not abort -/
+/-- regression of defect A: `m[2][0] = INT32_MIN`, `v = (2.0, 0, 1.0)`: divisor `-2^48`; the quotient
+    `2.0 / -65536.0` rounds to `-2/65536` -/
+example : transformPoint ⟨65536, 0, 0, 0, 65536, 0, -2147483648, 0, 0⟩ ⟨131072, 0, 65536⟩
+    = some (true, ⟨-2, 0, 65536⟩) := by decide
+
 example : transformPoint ⟨65536, 0, 0, 0, 65536, 0, 3, 0, 65536⟩ ⟨131072, 7, 65536⟩ = some (true, ⟨131060, 7, 65536⟩) := by decide
 
 /-- (M2) `rounded_udiv_128_by_48`: for every 128-bit dividend `hi:lo` and every divisor `0 < d ≤ 2^48`
     the returned pair `result_hi:result_lo` is the quotient rounded to nearest, ties up — including
-    `d = 2^48`, which the assertion `div < 2^48` refuses. -/
+    `d = 2^48` (reached with `div = -2^48` from the public API). -/
 theorem rounded_udiv_128_by_48_nearest (hi lo d : Int) (hhi : isU64 hi) (hlo : isU64 lo) (hd0 : 0 < d)
     (hd : d ≤ 281474976710656) :
     isU64 (udivCore hi lo d).1 ∧ isU64 (udivCore hi lo d).2 ∧
@@ -234,18 +221,18 @@ theorem rounded_udiv_128_by_48_nearest (hi lo d : Int) (hhi : isU64 hi) (hlo : i
 
 example : udivCore 5 100 281474976710656 = (327680, 0) := by decide
 
-/-- the assertion of `rounded_udiv_128_by_48` holds iff `div < 2^48` -/
+/-- the assertion of `rounded_udiv_128_by_48` holds iff `div ≤ 2^48` -/
 theorem rounded_udiv_128_by_48_assert (hi lo d : Int) :
-    (roundedUdiv128By48 hi lo d = some (udivCore hi lo d) ↔ d < 281474976710656) ∧
-    (roundedUdiv128By48 hi lo d = none ↔ ¬ d < 281474976710656) := by
+    (roundedUdiv128By48 hi lo d = some (udivCore hi lo d) ↔ d ≤ 281474976710656) ∧
+    (roundedUdiv128By48 hi lo d = none ↔ ¬ d ≤ 281474976710656) := by
   unfold roundedUdiv128By48 udivAssert
-  by_cases h : d < 281474976710656 <;> simp [h]
+  by_cases h : d ≤ 281474976710656 <;> simp [h]
 
 example : roundedSdiv128By49 (-1) 18446744073709551609 2 = some (-4, -1) := by decide
 
-/-- the assertion reached through `rounded_sdiv_128_by_49` fails exactly for `|div| ≥ 2^48` -/
+/-- the assertion reached through `rounded_sdiv_128_by_49` fails exactly for `|div| > 2^48` -/
 theorem rounded_sdiv_128_by_49_abort_iff (hi lo d : Int) (hd : isI64 d) :
-    roundedSdiv128By49 hi lo d = none ↔ abs d ≥ 281474976710656 :=
+    roundedSdiv128By49 hi lo d = none ↔ abs d > 281474976710656 :=
   sdiv_abort_iff hi lo d hd
 
 /-- (M3, 31.16 entry point) projective case with `0 < |w| < 65536.0` (all divisor bits kept, the
@@ -253,7 +240,7 @@ theorem rounded_sdiv_128_by_49_abort_iff (hi lo d : Int) (hd : isI64 d) :
     1/65536 (ties away from zero), clamped to the 48.16 result type; FALSE iff something was clamped. -/
 theorem transformPoint3116_projective_exact (t : Transform) (v : Vec) (ht : t.isI32)
     (hv : is3116 v.x ∧ is3116 v.y ∧ is3116 v.z)
-    (hW : -281474976710656 < dot t.m20 t.m21 t.m22 v.x v.y v.z ∧ dot t.m20 t.m21 t.m22 v.x v.y v.z < 281474976710656)
+    (hW : -281474976710656 ≤ dot t.m20 t.m21 t.m22 v.x v.y v.z ∧ dot t.m20 t.m21 t.m22 v.x v.y v.z < 281474976710656)
     (h0 : dot t.m20 t.m21 t.m22 v.x v.y v.z ≠ 0) (h1 : dot t.m20 t.m21 t.m22 v.x v.y v.z ≠ 4294967296) :
     transformPoint3116 t v = some
       (!((clamp64 (roundHalfAway (dot t.m00 t.m01 t.m02 v.x v.y v.z * 65536) (dot t.m20 t.m21 t.m22 v.x v.y v.z))).2 ||
@@ -266,8 +253,8 @@ theorem transformPoint3116_projective_exact (t : Transform) (v : Vec) (ht : t.is
   obtain ⟨d1, d2⟩ := div_parts t.m20 t.m21 t.m22 v
   have g0 := (rows_in_int64 t.m00 t.m01 t.m02 v ht.1 ht.2.1 ht.2.2.1 hv).2.2.2.1
   have g1 := (rows_in_int64 t.m10 t.m11 t.m12 v ht.2.2.2.1 ht.2.2.2.2.1 ht.2.2.2.2.2.1 hv).2.2.2.1
-  have p0 := projCoord_small _ _ _ g0 hW h0
-  have p1 := projCoord_small _ _ _ g1 hW h0
+  have p0 := projCoord_small _ _ _ g0 ⟨hW.1, Int.le_of_lt hW.2⟩ h0
+  have p1 := projCoord_small _ _ _ g1 ⟨hW.1, Int.le_of_lt hW.2⟩ h0
   rw [row_exact] at p0 p1
   simp only [transformPoint3116, hA, d1, d2, Bool.not_true, Bool.false_eq_true, if_false, fixed1]
   generalize dot t.m20 t.m21 t.m22 v.x v.y v.z = W at *
@@ -284,7 +271,7 @@ theorem transformPoint3116_projective_exact (t : Transform) (v : Vec) (ht : t.is
     quotients `x/w, y/w` such that the call returns TRUE iff both are representable in 16.16, and
     then the vector is `(qx, qy, 1.0)`. -/
 theorem transformPoint_exact (t : Transform) (v : Vec) (ht : t.isI32) (hv : v.isI32)
-    (hW : -281474976710656 < dot t.m20 t.m21 t.m22 v.x v.y v.z ∧ dot t.m20 t.m21 t.m22 v.x v.y v.z < 281474976710656)
+    (hW : -281474976710656 ≤ dot t.m20 t.m21 t.m22 v.x v.y v.z ∧ dot t.m20 t.m21 t.m22 v.x v.y v.z < 281474976710656)
     (h0 : dot t.m20 t.m21 t.m22 v.x v.y v.z ≠ 0) :
     ∃ b out qx qy, transformPoint t v = some (b, out) ∧
       IsNearest qx (dot t.m00 t.m01 t.m02 v.x v.y v.z * 65536) (dot t.m20 t.m21 t.m22 v.x v.y v.z) ∧
@@ -335,7 +322,7 @@ theorem mulEntry_in_int64 (a0 a1 a2 b0 b1 b2 : Int) (h0 : isI32 a0) (h1 : isI32 
     `0 < |div| < 2^48`: does not abort and returns, as a 128-bit two's complement pair, the quotient
     rounded to nearest with ties away from zero. -/
 theorem rounded_sdiv_128_by_49_nearest (hi lo d : Int) (hhi : isI64 hi) (hlo : isU64 lo)
-    (hd : -281474976710656 < d ∧ d < 281474976710656) (hd0 : d ≠ 0)
+    (hd : -281474976710656 ≤ d ∧ d ≤ 281474976710656) (hd0 : d ≠ 0)
     (hQ : roundHalfUp (abs (hi * 18446744073709551616 + lo)) (abs d) < 170141183460469231731687303715884105728) :
     ∃ r, roundedSdiv128By49 hi lo d = some r ∧ isI64 r.1 ∧ isI64 r.2 ∧
       r.2 * 18446744073709551616 + r.1 % 18446744073709551616
@@ -348,17 +335,19 @@ theorem multiply_cases (l r : Transform) :
   · exact Or.inl ⟨h, (multiply_spec l r).1 h⟩
   · exact Or.inr ⟨h, (multiply_spec l r).2 h⟩
 
-/-- scale/rotate/translate share `applyPair`: TRUE iff every requested product is representable; then
-    `forward = t × forward` and `reverse = reverse × t'` (per-term rounded products).  On FALSE a
-    forward product that succeeded before the reverse one failed has already been stored. -/
-theorem applyPair_spec (fwd rev : Option Transform) (tf tr : Transform) :
-    ((applyPair fwd rev tf tr).1 = true ↔
-       (∀ f, fwd = some f → (productSpec tf f).Rep) ∧ (∀ r, rev = some r → (productSpec r tr).Rep)) ∧
-    ((applyPair fwd rev tf tr).1 = true →
-       (applyPair fwd rev tf tr).2.1 = fwd.map (productSpec tf) ∧
-       (applyPair fwd rev tf tr).2.2 = rev.map (fun r => productSpec r tr)) := by
+/-- scale/rotate/translate share `applyPair`: TRUE iff every requested product is representable and,
+    when a reverse matrix is given, the operand check `revOk` passed; then `forward = t × forward` and
+    `reverse = reverse × t'` (per-term rounded products).  On FALSE a forward product that succeeded
+    before the reverse part failed has already been stored. -/
+theorem applyPair_spec (fwd rev : Option Transform) (tf : Transform) (revOk : Bool) (tr : Transform) :
+    ((applyPair fwd rev tf revOk tr).1 = true ↔
+       (∀ f, fwd = some f → (productSpec tf f).Rep) ∧
+       (∀ r, rev = some r → revOk = true ∧ (productSpec r tr).Rep)) ∧
+    ((applyPair fwd rev tf revOk tr).1 = true →
+       (applyPair fwd rev tf revOk tr).2.1 = fwd.map (productSpec tf) ∧
+       (applyPair fwd rev tf revOk tr).2.2 = rev.map (fun r => productSpec r tr)) := by
   unfold applyPair
-  cases fwd with
+  cases revOk <;> cases fwd with
   | none =>
     cases rev with
     | none => simp
@@ -371,29 +360,85 @@ theorem applyPair_spec (fwd rev : Option Transform) (tf tr : Transform) :
       | some r => rcases multiply_cases r tr with ⟨h', e'⟩ | ⟨h', e'⟩ <;> simp [e, h, e', h']
     · simp [e, h]
 
-/-- (partial) `pixman_transform_translate` is `forward = T(tx,ty) × forward`, `reverse = reverse × T(-tx,-ty)`
-    with the exact negation — EXCEPT for `tx` or `ty = INT32_MIN`, where `-tx` wraps to `INT32_MIN`
-    (the translation by +32768.0 is not representable and FALSE would be due; model and library
-    return the product with the wrong sign). -/
-theorem translate_spec_partial (fwd rev : Option Transform) (tx ty : Int)
-    (hx : -2147483648 < tx ∧ tx ≤ 2147483647) (hy : -2147483648 < ty ∧ ty ≤ 2147483647) :
-    translate fwd rev tx ty = applyPair fwd rev (initTranslate tx ty) (initTranslate (-tx) (-ty)) := by
-  unfold translate; rw [negS32_exact tx hx, negS32_exact ty hy]
+/-- the reverse operand matters only when the operand check passed -/
+theorem applyPair_operand (fwd rev : Option Transform) (tf : Transform) (revOk : Bool) (tr tr' : Transform)
+    (h : revOk = true → tr = tr') :
+    applyPair fwd rev tf revOk tr = applyPair fwd rev tf revOk tr' := by
+  cases revOk with
+  | true => rw [h rfl]
+  | false =>
+    unfold applyPair
+    cases fwd <;> cases rev <;> simp
 
-example : translate none (some initIdentity) (-2147483648) 0
-    = (true, none, some ⟨65536, 0, -2147483648, 0, 65536, 0, 0, 0, 65536⟩) := by decide
+/-- `applyPair_spec` with the operand check read as a proposition `P` and the reverse operand replaced
+    by its exact value `tr'` (equal to the computed one whenever the check passes) -/
+theorem applyPair_exact (fwd rev : Option Transform) (tf : Transform) (revOk : Bool) (tr tr' : Transform)
+    (P : Prop) (hP : revOk = true ↔ P) (htr : P → tr = tr') :
+    ((applyPair fwd rev tf revOk tr).1 = true ↔
+       (∀ f, fwd = some f → (productSpec tf f).Rep) ∧
+       (∀ r, rev = some r → P ∧ (productSpec r tr').Rep)) ∧
+    ((applyPair fwd rev tf revOk tr).1 = true →
+       (applyPair fwd rev tf revOk tr).2.1 = fwd.map (productSpec tf) ∧
+       (applyPair fwd rev tf revOk tr).2.2 = rev.map (fun r => productSpec r tr')) := by
+  rw [applyPair_operand fwd rev tf revOk tr tr' (fun h => htr (hP.1 h))]
+  have := applyPair_spec fwd rev tf revOk tr'
+  rw [hP] at this
+  exact this
 
-/-- (partial) `pixman_transform_rotate`: `forward = R(c,s) × forward`, `reverse = reverse × R(c,-s)`,
-    exact except for `s = INT32_MIN` (same wrap as in translate). -/
-theorem rotate_spec_partial (fwd rev : Option Transform) (c s : Int) (hs : -2147483648 < s ∧ s ≤ 2147483647) :
-    rotate fwd rev c s = applyPair fwd rev ⟨c, -s, 0, s, c, 0, 0, 0, 65536⟩ ⟨c, s, 0, -s, c, 0, 0, 0, 65536⟩ := by
-  unfold rotate initRotate fixed1
-  rw [negS32_exact s hs, negS32_exact (-s) (by omega), Int.neg_neg]
+/-- `pixman_transform_translate`: TRUE iff `T(tx,ty) × forward` is representable (when `forward` is
+    given) and (when `reverse` is given) `-tx`, `-ty` are representable and `reverse × T(-tx,-ty)` is;
+    then these per-term rounded products are the results.  FALSE otherwise (never a wrapped value). -/
+theorem translate_spec (fwd rev : Option Transform) (tx ty : Int) (hx : isI32 tx) (hy : isI32 ty) :
+    ((translate fwd rev tx ty).1 = true ↔
+       (∀ f, fwd = some f → (productSpec (initTranslate tx ty) f).Rep) ∧
+       (∀ r, rev = some r → (Rep32 (-tx) ∧ Rep32 (-ty)) ∧ (productSpec r (initTranslate (-tx) (-ty))).Rep)) ∧
+    ((translate fwd rev tx ty).1 = true →
+       (translate fwd rev tx ty).2.1 = fwd.map (productSpec (initTranslate tx ty)) ∧
+       (translate fwd rev tx ty).2.2 = rev.map (fun r => productSpec r (initTranslate (-tx) (-ty)))) := by
+  unfold isI32 at hx hy
+  unfold translate
+  apply applyPair_exact
+  · simp only [Bool.and_eq_true, decide_eq_true_eq]; unfold Rep32; omega
+  · intro h
+    unfold Rep32 at h
+    rw [negS32_exact tx (by omega), negS32_exact ty (by omega)]
+
+/-- regression of defect D: translation by `INT32_MIN` with a reverse matrix: FALSE, nothing stored -/
+example : translate none (some initIdentity) (-2147483648) 0 = (false, none, some initIdentity) := by decide
+
+/-- `pixman_transform_rotate` with `R = (c -s 0; s c 0; 0 0 1)`: TRUE iff `-s` is representable,
+    `R(c,s) × forward` is (when given) and `reverse × R(c,-s)` is (when given); then these per-term
+    rounded products are the results.  FALSE otherwise (never a wrapped value). -/
+theorem rotate_spec (fwd rev : Option Transform) (c s : Int) (hs : isI32 s) :
+    ((rotate fwd rev c s).1 = true ↔ Rep32 (-s) ∧
+       (∀ f, fwd = some f → (productSpec ⟨c, -s, 0, s, c, 0, 0, 0, 65536⟩ f).Rep) ∧
+       (∀ r, rev = some r → (productSpec r ⟨c, s, 0, -s, c, 0, 0, 0, 65536⟩).Rep)) ∧
+    ((rotate fwd rev c s).1 = true →
+       (rotate fwd rev c s).2.1 = fwd.map (productSpec ⟨c, -s, 0, s, c, 0, 0, 0, 65536⟩) ∧
+       (rotate fwd rev c s).2.2 = rev.map (fun r => productSpec r ⟨c, s, 0, -s, c, 0, 0, 0, 65536⟩)) := by
+  unfold isI32 at hs
+  unfold rotate
+  by_cases h : s = -2147483648
+  · have : ¬ Rep32 (-s) := by unfold Rep32; omega
+    rw [if_pos h]
+    refine ⟨⟨fun hh => (by cases hh), fun hh => absurd hh.1 this⟩, fun hh => (by cases hh)⟩
+  · have hr : Rep32 (-s) := by unfold Rep32; omega
+    simp only [h, if_false, hr, true_and]
+    have e1 : initRotate c s = ⟨c, -s, 0, s, c, 0, 0, 0, 65536⟩ := by
+      unfold initRotate fixed1; rw [negS32_exact s (by omega)]
+    have e2 : initRotate c (negS32 s) = ⟨c, s, 0, -s, c, 0, 0, 0, 65536⟩ := by
+      unfold initRotate fixed1; rw [negS32_exact s (by omega), negS32_exact (-s) (by omega), Int.neg_neg]
+    rw [e1, e2]
+    have := applyPair_spec fwd rev ⟨c, -s, 0, s, c, 0, 0, 0, 65536⟩ true ⟨c, s, 0, -s, c, 0, 0, 0, 65536⟩
+    simpa using this
+
+example : rotate (some initIdentity) none 0 (-2147483648) = (false, some initIdentity, none) := by decide
+example : rotate (some initIdentity) (some initIdentity) 0 65536
+    = (true, some ⟨0, -65536, 0, 65536, 0, 0, 0, 0, 65536⟩, some ⟨0, 65536, 0, -65536, 0, 0, 0, 0, 65536⟩) := by decide
 
 /-- `fixed_inverse`: the reciprocal `2^32 / x` truncated towards zero: within one unit of the exact
-    reciprocal and never larger in magnitude; it is wrapped into `int32_t` without notice when it
-    does not fit, which happens exactly for `x ∈ {1, -1, 2}` (then scale returns TRUE with a wrong
-    reverse matrix). -/
+    reciprocal and never larger in magnitude; it does not fit `int32_t` exactly for `x ∈ {1, -1, 2}`
+    (the cases `pixman_transform_scale` refuses before calling it). -/
 theorem fixedInverse_spec (x : Int) (hx : isI32 x) (h0 : x ≠ 0) :
     (Rep32 (Int.tdiv 4294967296 x) → fixedInverse x = Int.tdiv 4294967296 x) ∧
     abs (4294967296 - Int.tdiv 4294967296 x * x) < abs x ∧
@@ -426,23 +471,69 @@ theorem fixedInverse_spec (x : Int) (hx : isI32 x) (h0 : x ≠ 0) :
       rw [e2]
       omega
 
+/-- `pixman_transform_scale` with `q(s) = 2^32 / s` truncated towards zero: TRUE iff both factors are
+    non-zero, `S(sx,sy) × forward` is representable (when given) and (when `reverse` is given) both
+    truncated reciprocals are representable and `reverse × S(q(sx),q(sy))` is; then these per-term
+    rounded products — with the EXACT truncated reciprocals — are the results.  FALSE otherwise. -/
+theorem scale_spec (fwd rev : Option Transform) (sx sy : Int) (hx : isI32 sx) (hy : isI32 sy) :
+    ((scale fwd rev sx sy).1 = true ↔ sx ≠ 0 ∧ sy ≠ 0 ∧
+       (∀ f, fwd = some f → (productSpec (initScale sx sy) f).Rep) ∧
+       (∀ r, rev = some r → (Rep32 (Int.tdiv 4294967296 sx) ∧ Rep32 (Int.tdiv 4294967296 sy)) ∧
+          (productSpec r (initScale (Int.tdiv 4294967296 sx) (Int.tdiv 4294967296 sy))).Rep)) ∧
+    ((scale fwd rev sx sy).1 = true →
+       (scale fwd rev sx sy).2.1 = fwd.map (productSpec (initScale sx sy)) ∧
+       (scale fwd rev sx sy).2.2 = rev.map (fun r => productSpec r
+          (initScale (Int.tdiv 4294967296 sx) (Int.tdiv 4294967296 sy)))) := by
+  unfold scale
+  by_cases h0 : sx = 0 ∨ sy = 0
+  · simp only [h0, if_true]
+    constructor
+    · constructor
+      · intro h; cases h
+      · intro h; rcases h0 with h0 | h0
+        · exact absurd h0 h.1
+        · exact absurd h0 h.2.1
+    · intro h; cases h
+  · have hx0 : sx ≠ 0 := fun h => h0 (Or.inl h)
+    have hy0 : sy ≠ 0 := fun h => h0 (Or.inr h)
+    rw [if_neg h0]
+    simp only [ne_eq, hx0, hy0, not_false_eq_true, true_and]
+    obtain ⟨fx1, _, fx3⟩ := fixedInverse_spec sx hx hx0
+    obtain ⟨fy1, _, fy3⟩ := fixedInverse_spec sy hy hy0
+    apply applyPair_exact
+    · unfold scaleInverseOverflows
+      simp only [Bool.not_eq_true', Bool.or_eq_false_iff, Bool.and_eq_false_iff, decide_eq_false_iff_not]
+      constructor
+      · intro h
+        constructor
+        · apply Classical.byContradiction; intro hn; have := fx3.1 hn; omega
+        · apply Classical.byContradiction; intro hn; have := fy3.1 hn; omega
+      · intro h
+        have nx : ¬ (sx = 1 ∨ sx = -1 ∨ sx = 2) := fun hh => (fx3.2 hh) h.1
+        have ny : ¬ (sy = 1 ∨ sy = -1 ∨ sy = 2) := fun hh => (fy3.2 hh) h.2
+        omega
+    · intro h
+      rw [fx1 h.1, fy1 h.2]
+
+/-- regression of defect C: scale by 1/65536 with a reverse matrix: FALSE -/
+example : scale none (some initIdentity) 1 65536 = (false, none, some initIdentity) := by decide
+example : scale (some initIdentity) (some initIdentity) 131072 32768
+    = (true, some ⟨131072, 0, 0, 0, 32768, 0, 0, 0, 65536⟩, some ⟨32768, 0, 0, 0, 131072, 0, 0, 0, 65536⟩) := by decide
+
 /-- (M4 step, 31.16 entry point) projective case with `|w| ≥ 65536.0` (`hi32divbits ≠ 0`): with `s` the
     number of bits dropped, each coordinate is `⌊x·2^16/2^s⌋ / ⌊w/2^s⌋` rounded to nearest (ties away
-    from zero) and clamped — provided the reduced divisor is not `-2^48` (otherwise: abort). -/
+    from zero) and clamped (the reduced divisor has 47 significant bits: `2^47 ≤ |⌊w/2^s⌋| ≤ 2^48`). -/
 theorem transformPoint3116_projective_reduced (t : Transform) (v : Vec) (ht : t.isI32)
     (hv : is3116 v.x ∧ is3116 v.y ∧ is3116 v.z)
     (hW : ¬ (-281474976710656 ≤ dot t.m20 t.m21 t.m22 v.x v.y v.z ∧ dot t.m20 t.m21 t.m22 v.x v.y v.z < 281474976710656)) :
     ∃ s : Nat, 1 ≤ s ∧ s ≤ 31 ∧
       140737488355328 ≤ abs (dot t.m20 t.m21 t.m22 v.x v.y v.z / (2 : Int) ^ s) ∧
-      (projDivisor (dot t.m20 t.m21 t.m22 v.x v.y v.z / 65536) (dot t.m20 t.m21 t.m22 v.x v.y v.z % 65536)).1
-        = dot t.m20 t.m21 t.m22 v.x v.y v.z / (2 : Int) ^ s ∧
-      (dot t.m20 t.m21 t.m22 v.x v.y v.z / (2 : Int) ^ s ≠ -281474976710656 →
         transformPoint3116 t v = some
           (!((clamp64 (roundHalfAway (dot t.m00 t.m01 t.m02 v.x v.y v.z * 65536 / (2 : Int) ^ s) (dot t.m20 t.m21 t.m22 v.x v.y v.z / (2 : Int) ^ s))).2 ||
              (clamp64 (roundHalfAway (dot t.m10 t.m11 t.m12 v.x v.y v.z * 65536 / (2 : Int) ^ s) (dot t.m20 t.m21 t.m22 v.x v.y v.z / (2 : Int) ^ s))).2),
            ⟨(clamp64 (roundHalfAway (dot t.m00 t.m01 t.m02 v.x v.y v.z * 65536 / (2 : Int) ^ s) (dot t.m20 t.m21 t.m22 v.x v.y v.z / (2 : Int) ^ s))).1,
             (clamp64 (roundHalfAway (dot t.m10 t.m11 t.m12 v.x v.y v.z * 65536 / (2 : Int) ^ s) (dot t.m20 t.m21 t.m22 v.x v.y v.z / (2 : Int) ^ s))).1,
-            65536⟩)) := by
+            65536⟩) := by
   have hA : vecAssert v = true := by simp [vecAssert, hv.1, hv.2.1, hv.2.2]
   unfold Transform.isI32 at ht
   obtain ⟨d1, d2⟩ := div_parts t.m20 t.m21 t.m22 v
@@ -468,11 +559,11 @@ theorem transformPoint3116_projective_reduced (t : Transform) (v : Vec) (ht : t.
     · have : W / 2 ^ s < -140737488355328 := by
         apply Int.ediv_lt_of_lt_mul hp; rw [Int.neg_mul]; exact b
       split <;> omega
-  refine ⟨s, s1, s2, r3, by rw [e], fun hne => ?_⟩
+  refine ⟨s, s1, s2, r3, ?_⟩
   have c1 : ¬ (W / 65536 = 65536 ∧ W % 65536 = 0) := by omega
   have c2 : ¬ (W / 65536 = 0 ∧ W % 65536 = 0) := by omega
   simp only [transformPoint3116, hA, d1, d2, Bool.not_true, Bool.false_eq_true, if_false, fixed1, c1, c2, e]
-  have hW' : -281474976710656 < W / 2 ^ s ∧ W / 2 ^ s < 281474976710656 := by omega
+  have hW' : -281474976710656 ≤ W / 2 ^ s ∧ W / 2 ^ s ≤ 281474976710656 := by omega
   have hW0 : W / 2 ^ s ≠ 0 := by unfold abs at r3; split at r3 <;> omega
   have n0 := to128_reduced _ _ s s1 s2 g0.2.2.2.1
   have n1 := to128_reduced _ _ s s1 s2 g1.2.2.2.1
@@ -488,29 +579,21 @@ theorem transformPoint3116_projective_reduced (t : Transform) (v : Vec) (ht : t.
   simp only [p0, p1]
 
 
-/-- (M4, partial) the public `pixman_transform_point` for `|w| ≥ 65536.0`, when it does not abort:
-    there are `qx, qy` such that TRUE is returned iff both are representable in 16.16, and then the
-    vector is `(qx, qy, 1.0)` with each coordinate WITHIN ONE UNIT (1/65536) of the exact quotient.
-    Gaps to the full property: (i) the inputs whose reduced divisor is `-2^48` abort (defect A,
-    `transformPoint3116_abort_iff`); (ii) "FALSE iff not representable" is stated for the computed
-    `qx, qy` (roundings of the precision-reduced quotient), not for the exact quotient: within one
-    unit of the int32 limit the two may differ. -/
+/-- (M4, partial) the public `pixman_transform_point` for `|w| ≥ 65536.0`: there are `qx, qy` such
+    that TRUE is returned iff both are representable in 16.16, and then the vector is `(qx, qy, 1.0)`
+    with each coordinate WITHIN ONE UNIT (1/65536) of the exact quotient.
+    Gap to the full property: "FALSE iff not representable" is stated for the computed `qx, qy`
+    (roundings of the precision-reduced quotient), not for the exact quotient: within one unit of
+    the int32 limit the two may differ. -/
 theorem transformPoint_within_one_partial (t : Transform) (v : Vec) (ht : t.isI32) (hv : v.isI32)
-    (hW : ¬ (-281474976710656 ≤ dot t.m20 t.m21 t.m22 v.x v.y v.z ∧ dot t.m20 t.m21 t.m22 v.x v.y v.z < 281474976710656))
-    (hna : transformPoint t v ≠ none) :
+    (hW : ¬ (-281474976710656 ≤ dot t.m20 t.m21 t.m22 v.x v.y v.z ∧ dot t.m20 t.m21 t.m22 v.x v.y v.z < 281474976710656)) :
     ∃ b out qx qy, transformPoint t v = some (b, out) ∧ (b = true ↔ Rep32 qx ∧ Rep32 qy) ∧
       (b = true → out = ⟨qx, qy, 65536⟩ ∧
         IsWithinOne qx (dot t.m00 t.m01 t.m02 v.x v.y v.z * 65536) (dot t.m20 t.m21 t.m22 v.x v.y v.z) ∧
         IsWithinOne qy (dot t.m10 t.m11 t.m12 v.x v.y v.z * 65536) (dot t.m20 t.m21 t.m22 v.x v.y v.z)) := by
   have h31 : is3116 v.x ∧ is3116 v.y ∧ is3116 v.z := by
     unfold Vec.isI32 isI32 at hv; unfold is3116; omega
-  obtain ⟨s, s1, s2, big, pd, hres⟩ := transformPoint3116_projective_reduced t v ht h31 hW
-  have hne : dot t.m20 t.m21 t.m22 v.x v.y v.z / (2 : Int) ^ s ≠ -281474976710656 := by
-    intro hc
-    apply hna
-    rw [transformPoint_none_iff, transformPoint3116_abort_iff t v ht h31]
-    refine ⟨by omega, by omega, by rw [pd]; exact hc⟩
-  have e := hres hne
+  obtain ⟨s, s1, s2, big, e⟩ := transformPoint3116_projective_reduced t v ht h31 hW
   have hW0 : dot t.m20 t.m21 t.m22 v.x v.y v.z / (2 : Int) ^ s ≠ 0 := by unfold abs at big; split at big <;> omega
   have nx := roundHalfAway_isNearest (dot t.m00 t.m01 t.m02 v.x v.y v.z * 65536 / 2 ^ s) _ hW0
   have ny := roundHalfAway_isNearest (dot t.m10 t.m11 t.m12 v.x v.y v.z * 65536 / 2 ^ s) _ hW0
@@ -548,10 +631,10 @@ example :=
   transformPoint_exact ⟨65536, 0, 0, 0, 65536, 0, 0, 0, 131072⟩ ⟨-3, 5, 65536⟩
     (by unfold Transform.isI32 isI32; decide) (by unfold Vec.isI32 isI32; decide) (by decide) (by decide)
 example : transformPoint ⟨65536, 0, 0, 0, 65536, 0, 0, 0, 131072⟩ ⟨-3, 5, 65536⟩ = some (true, ⟨-2, 3, 65536⟩) := by decide
--- transformPoint_within_one_partial: |w| = 2^17 · 1.0 ≥ 65536.0, no abort
+-- transformPoint_within_one_partial: |w| = 2^17 · 1.0 ≥ 65536.0
 example :=
   transformPoint_within_one_partial ⟨65536, 0, 0, 0, 65536, 0, 0, 0, 2147483647⟩ ⟨6553600, -65536, 1073741824⟩
-    (by unfold Transform.isI32 isI32; decide) (by unfold Vec.isI32 isI32; decide) (by decide) (by decide)
+    (by unfold Transform.isI32 isI32; decide) (by unfold Vec.isI32 isI32; decide) (by decide)
 -- w = 0: FALSE, vector untouched
 example : transformPoint ⟨65536, 0, 0, 0, 65536, 0, 65536, 0, -65536⟩ ⟨65536, 7, 65536⟩ = some (false, ⟨65536, 7, 65536⟩) := by decide
 -- transformPoint3d_spec
@@ -562,11 +645,11 @@ example : multiply ⟨1, 1, 1, 0, 65536, 0, 0, 0, 65536⟩ ⟨32768, 0, 0, 32768
 example : multiply ⟨2147483647, 0, 0, 0, 65536, 0, 0, 0, 65536⟩ ⟨131072, 0, 0, 0, 65536, 0, 0, 0, 65536⟩ = none := by decide
 -- bounds_contains_corners_partial: a TRUE case with a rotated box
 example : bounds ⟨0, -65536, 0, 65536, 0, 0, 0, 0, 65536⟩ ⟨1, 2, 3, 4⟩ = some (true, ⟨-4, 1, -2, 3⟩) := by decide
--- applyPair_spec via scale: forward and reverse both given
+-- scale_spec: forward and reverse both given
 example : scale (some initIdentity) (some initIdentity) 131072 32768
     = (true, some ⟨131072, 0, 0, 0, 32768, 0, 0, 0, 65536⟩, some ⟨32768, 0, 0, 0, 131072, 0, 0, 0, 65536⟩) := by decide
--- defect: scale by 1/65536: the reciprocal 65536.0 wraps to 0 and TRUE is returned
-example : scale none (some initIdentity) 1 65536 = (true, none, some ⟨0, 0, 0, 0, 65536, 0, 0, 0, 65536⟩) := by decide
+-- scale by 1/65536 without a reverse matrix is fine; with one it is refused (the reciprocal 65536.0 does not fit)
+example : scale (some initIdentity) none 1 65536 = (true, some ⟨1, 0, 0, 0, 65536, 0, 0, 0, 65536⟩, none) := by decide
 -- fixedInverse_spec: truncation (1/1.5 = 0.66666.. -> 43690, nearest would be 43691)
 example : fixedInverse 98304 = 43690 := by decide
 
